@@ -13,9 +13,11 @@ import (
 	"encoding/json"
 	"errors"
 	"fmt"
+	"hash/fnv"
 	"net"
 	"os"
 	"path/filepath"
+	"runtime"
 	"sort"
 	"strconv"
 	"strings"
@@ -635,8 +637,13 @@ func runOnce(c C18Case) verdict {
 		pods = append(pods, &api.PodSandbox{Id: fmt.Sprintf("sp%d", i), Name: fmt.Sprintf("sp%d", i)})
 	}
 	for i := 0; i < c.SyncCtrs; i++ {
-		ctrs = append(ctrs, &api.Container{Id: fmt.Sprintf("sc%d", i), PodSandboxId: "sp0", Name: fmt.Sprintf("sc%d", i)})
+		ct := &api.Container{Id: fmt.Sprintf("sc%d", i), PodSandboxId: "sp0", Name: fmt.Sprintf("sc%d", i)}
+		if c.SyncCtrKiB > 0 {
+			ct.Annotations = map[string]string{"verif/bulk": strings.Repeat(fmt.Sprintf("%04d-0123456789ab", i), c.SyncCtrKiB*64)} // 16 bytes x 64 = 1 KiB
+		}
+		ctrs = append(ctrs, ct)
 	}
+	wantSync := stateDigest(pods, ctrs)
 	opts := []adaptation.Option{
 		adaptation.WithPluginPath(pluginPath),
 		adaptation.WithPluginConfigPath(confPath),
@@ -666,8 +673,46 @@ func runOnce(c C18Case) verdict {
 		adaptation.SetPluginRegistrationTimeout(time.Duration(c.RegTimeoutMs) * time.Millisecond)
 		defer adaptation.SetPluginRegistrationTimeout(regTimeout)
 	}
+	req := reqTimeout
+	if c.ReqTimeoutMs != 0 {
+		req = time.Duration(c.ReqTimeoutMs) * time.Millisecond
+		adaptation.SetPluginRequestTimeout(req)
+		defer adaptation.SetPluginRequestTimeout(reqTimeout)
+	}
+	// Start must return. Its legitimate waits are the timeouts of the plugins that never
+	// register or never answer; the watchdog is a flat 10 s ("does not hang") on top of twice those.
+	reg := regTimeout
+	if c.RegTimeoutMs != 0 {
+		reg = time.Duration(c.RegTimeoutMs) * time.Millisecond
+	}
+	startBound := 10 * time.Second
+	for _, p := range c.Plugins {
+		switch p.Behav {
+		case bSleep:
+			startBound += 2 * reg
+		case bCfgHang, bSyncHang:
+			startBound += 2 * req
+		}
+	}
 	t0 := time.Now()
-	startErr := a.Start()
+	var startErr error
+	startC := make(chan error, 1)
+	go func() { startC <- a.Start() }()
+	select {
+	case startErr = <-startC:
+	case <-time.After(startBound):
+		// Start holds the adaptation's lock: Stop would block as well. Abandon the instance,
+		// kill what was launched (the deferred clean-up does, from the reports).
+		reports, _ = readReports(root)
+		for _, r := range reports {
+			trackPid(r.Pid, r.StartTime)
+		}
+		h.Reports = reports
+		h.Log, _ = readLog(root)
+		h.note("goroutines:\n%s", nriStacks())
+		return failTimed(h, "Adaptation.Start did not return within %v (%d plugins in the directory, synchronization state %s) — start-up hangs, the launched plugins are neither served nor stopped",
+			startBound, len(c.Plugins), wantSync)
+	}
 	h.note("Start returned %v after %v", startErr, time.Since(t0).Round(time.Millisecond))
 	stopped := false
 	defer func() {
@@ -691,19 +736,10 @@ func runOnce(c C18Case) verdict {
 		plugOf[pluginDirName+"/"+p.File()] = p
 	}
 
-	// "killed": not alive (gone, zombie, pid re-used) within the bound. "reaped": killed and
-	// waited for — the pid is gone or re-used, not a zombie. nri's stop() is Kill+Wait, so a
-	// plugin nri stopped or dropped is reaped; only a process that ended on its own before
-	// it registered is never waited for (NOTES.md) and may remain a zombie.
-	notDead := func(when string, r Report, p Plugin) verdict {
-		dead, st, took := waitDead(r.Pid, r.StartTime, deathBound)
-		h.note("%s: process %d of %s: dead=%v state=%s after %v", when, r.Pid, p.File(), dead, st, took.Round(time.Microsecond))
-		if !dead {
-			return failTimed(h, "%s: process %d of plugin %s (%s) is still alive (state %s) %v later — a plugin nri stops or drops must be killed",
-				when, r.Pid, p.File(), p.Behav, st, took.Round(time.Millisecond))
-		}
-		return verdict{}
-	}
+	// "reaped": killed and waited for — the pid is gone or re-used, not a zombie. nri's stop()
+	// is Kill+Wait; every process nri launched, whether it stops, drops or gives up on it, is
+	// reaped (since the fix of D20 also one that ended or closed its connection before
+	// registering).
 	notReaped := func(when string, r Report, p Plugin) verdict {
 		gone, st, took := waitGone(r.Pid, r.StartTime, deathBound)
 		h.note("%s: process %d of %s: reaped=%v state=%s after %v", when, r.Pid, p.File(), gone, st, took.Round(time.Microsecond))
@@ -730,27 +766,21 @@ func runOnce(c C18Case) verdict {
 		// Start-up failed on the runtime's side: nri must not leave behind what it launched.
 		// Every launched process is killed and reaped when Start returns (startPlugins stops
 		// the started plugins on its way out; those that failed earlier were stopped then) —
-		// without the runtime having to call Stop. A process that ended on its own before
-		// registering was never waited for (zombie accepted); closefd is judged after Stop.
+		// without the runtime having to call Stop.
 		for _, r := range reports {
-			p, known := plugOf[r.File]
-			switch {
-			case known && p.Behav == bCloseFD:
-			case known && p.Behav == bExit:
-				if v := notDead("after the failed Start (the runtime's SyncFn returned an error)", r, p); v.out.Fail != "" {
-					return v
-				}
-			default:
-				if v := notReaped("after the failed Start (the runtime's SyncFn returned an error; nri must stop the plugins it launched)", r, p); v.out.Fail != "" {
-					return v
-				}
+			p := plugOf[r.File]
+			if v := notReaped("after the failed Start (the runtime's SyncFn returned an error; nri must stop the plugins it launched)", r, p); v.out.Fail != "" {
+				return v
 			}
 		}
 	}
 	if startErr == nil {
 		for _, p := range c.Plugins {
 			switch p.Behav {
-			case bSleep, bCfgFail, bCfgHang, bSyncFail, bSyncHang, bSyncClose:
+			case bExit, bCloseFD, bSleep, bCfgFail, bCfgHang, bBadMask, bSyncFail, bSyncHang, bSyncClose:
+				// every process nri launched and gave up on during start-up is killed and
+				// reaped once Start has returned — also one that ended on its own or closed its
+				// connection before registering
 				for _, r := range byFile[pluginDirName+"/"+p.File()] {
 					if v := notReaped("after Start (plugin failed to register/configure/synchronize)", r, p); v.out.Fail != "" {
 						return v
@@ -864,27 +894,8 @@ func runOnce(c C18Case) verdict {
 	h.note("Stop returned after %v", time.Since(t2).Round(time.Microsecond))
 	var lenient []string
 	for _, r := range reports {
-		p, known := plugOf[r.File]
-		switch {
-		case known && p.Behav == bCloseFD:
-			// The process closed its socket without registering and keeps running. nri
-			// skips it ("connection closed") and never had it on its list; the statement
-			// promises the kill for plugins nri stops or drops, and is silent on whether
-			// giving up on a launched process counts. Both outcomes are accepted.
-			if alive, _ := procAlive(r.Pid, r.StartTime); alive {
-				lenient = append(lenient, "closefd_process_survives_stop")
-			} else {
-				lenient = append(lenient, "closefd_process_killed")
-			}
-		case known && p.Behav == bExit:
-			// ended on its own before registering: never waited for, a zombie is accepted
-			if v := notDead("after Stop", r, p); v.out.Fail != "" {
-				return v
-			}
-		default:
-			if v := notReaped("after Stop", r, p); v.out.Fail != "" {
-				return v
-			}
+		if v := notReaped("after Stop", r, plugOf[r.File]); v.out.Fail != "" {
+			return v
 		}
 	}
 	for _, e := range exts {
@@ -897,7 +908,7 @@ func runOnce(c C18Case) verdict {
 	}
 	h.Log = lines
 
-	v := judge(c, h, startErr, reports, lines, canExec, own)
+	v := judge(c, h, startErr, reports, lines, canExec, own, wantSync)
 	if os.Getenv("C18_DEBUG") != "" {
 		fmt.Fprintf(os.Stderr, "--- %d plugins, fail=%q\n  %s\n", len(c.Plugins), v.out.Fail, strings.Join(h.Timeline, "\n  "))
 	}
@@ -927,7 +938,7 @@ var lifecycle = func() map[string]bool {
 }()
 
 // judge is the oracle over the reports and the event log.
-func judge(c C18Case, h *history, startErr error, reports []Report, lines []Line, canExec map[string]bool, own map[string]string) verdict {
+func judge(c C18Case, h *history, startErr error, reports []Report, lines []Line, canExec map[string]bool, own map[string]string, wantSync string) verdict {
 	classes := map[string]int{}
 	cls := func(k string) { classes[k]++ }
 
@@ -1047,12 +1058,14 @@ func judge(c C18Case, h *history, startErr error, reports []Report, lines []Line
 	}
 	cfgLines := map[string][]Line{}
 	syncCount := map[string]int{}
+	syncTag := map[string]string{}
 	lateSync := ""
 	var life []Line
 	for _, l := range lines {
 		switch {
 		case l.Ev == "Synchronize":
 			syncCount[l.P]++
+			syncTag[l.P] = l.Tag
 			if len(life) > 0 && lateSync == "" {
 				lateSync = l.P
 			}
@@ -1108,7 +1121,9 @@ func judge(c C18Case, h *history, startErr error, reports []Report, lines []Line
 			case p.reachesSync() && n == 0:
 				return failTimed(h, "plugin %s (%s) registered and was configured but was never synchronized%s", p.File(), p.Behav, syncBehind(c, expectLaunch, p))
 			case p.reachesSync() && n > 1:
-				return failNow(h, "plugin %s (%s) was synchronized %d times (the state fits one message)", p.File(), p.Behav, n)
+				return failNow(h, "plugin %s (%s) had its Synchronize handler invoked %d times (a state split over several messages is still one synchronization)", p.File(), p.Behav, n)
+			case p.reachesSync() && syncTag[key] != wantSync:
+				return failNow(h, "plugin %s (%s) was synchronized with %s, the runtime handed out %s", p.File(), p.Behav, syncTag[key], wantSync)
 			}
 		}
 		if lateSync != "" {
@@ -1387,6 +1402,21 @@ func judge(c C18Case, h *history, startErr error, reports []Report, lines []Line
 			cls("several_running_plugins_dropped_by_last_request_then_stop_within_1ms")
 		}
 	}
+	{
+		kib := c.SyncCtrs * c.SyncCtrKiB
+		nSync := len(syncOrder(c, expectLaunch))
+		switch {
+		case kib > 4096:
+			cls("sync_state:above_4MiB")
+			if nSync > 0 && c.SyncFn != "fail_before" {
+				cls("launched_plugin_synchronized_with_state_above_4MiB")
+			}
+		case kib > 3000:
+			cls("sync_state:just_below_4MiB")
+		default:
+			cls("sync_state:small")
+		}
+	}
 	if c.SyncFn != "" {
 		cls("runtime_syncfn:" + c.SyncFn)
 		n := 0
@@ -1485,6 +1515,50 @@ func judge(c C18Case, h *history, startErr error, reports []Report, lines []Line
 	return verdict{out: o}
 }
 
+// stateDigest mirrors StateDigest of cmd/probeplugin.
+func stateDigest(pods []*api.PodSandbox, ctrs []*api.Container) string {
+	var sum uint64
+	one := func(kind, id string, ann map[string]string) {
+		keys := make([]string, 0, len(ann))
+		for k := range ann {
+			keys = append(keys, k)
+		}
+		sort.Strings(keys)
+		hh := fnv.New64a()
+		hh.Write([]byte(kind + "\x00" + id))
+		for _, k := range keys {
+			hh.Write([]byte("\x00" + k + "\x00" + ann[k]))
+		}
+		sum += hh.Sum64()
+	}
+	for _, p := range pods {
+		one("pod", p.GetId(), p.GetAnnotations())
+	}
+	for _, c := range ctrs {
+		one("ctr", c.GetId(), c.GetAnnotations())
+	}
+	return fmt.Sprintf("pods=%d ctrs=%d sum=%016x", len(pods), len(ctrs), sum)
+}
+
+// nriStacks returns the stacks of the goroutines that are inside nri (for a hang report).
+func nriStacks() string {
+	buf := make([]byte, 1<<20)
+	buf = buf[:runtime.Stack(buf, true)]
+	var keep []string
+	for _, g := range strings.Split(string(buf), "\n\n") {
+		if strings.Contains(g, "containerd/nri/pkg/adaptation") {
+			if len(g) > 1500 {
+				g = g[:1500] + " …"
+			}
+			keep = append(keep, g)
+		}
+		if len(keep) >= 6 {
+			break
+		}
+	}
+	return strings.Join(keep, "\n\n")
+}
+
 // syncOrder lists the launched plugins nri hands to the synchronization, in directory order.
 func syncOrder(c C18Case, expectLaunch map[string]Plugin) []Plugin {
 	var ps []Plugin
@@ -1576,7 +1650,7 @@ func TestExh_C18(t *testing.T) {
 	defer r.Flush()
 	ops := []string{"RunPodSandbox", "CreateContainer", "StartContainer", "StopContainer"}
 	var cases []C18Case
-	for i, b := range []string{bOK, bExit, bSleep, bCloseFD, bCfgFail, bCfgHang, bSyncFail, bSyncHang, bSyncClose, bDie, bDieAfter, bLinger, bCloseAt, bHang, bGarbage} {
+	for i, b := range []string{bOK, bExit, bSleep, bCloseFD, bCfgFail, bCfgHang, bBadMask, bSyncFail, bSyncHang, bSyncClose, bDie, bDieAfter, bLinger, bCloseAt, bHang, bGarbage} {
 		x := Plugin{Idx: "20", Stem: "x", Behav: b, Mode: 0o755}
 		switch b {
 		case bExit:
@@ -1631,6 +1705,27 @@ func TestExh_C18(t *testing.T) {
 		Ops:     ops,
 		Listen:  true,
 		Exts:    []Ext{{Idx: "10", Name: "e0", Join: 0, Leave: 2}, {Idx: "20", Name: "e1", Join: 1, Leave: len(ops) + 1}, {Idx: "05", Name: "e2", Join: 3, Leave: 4}},
+	})
+	// plugins that answer Configure with an event mask the runtime does not know (every
+	// variant), between healthy ones
+	for k := 0; k < nBadMasks; k++ {
+		cases = append(cases, C18Case{
+			Plugins: []Plugin{{Idx: "10", Stem: "a", Behav: bOK, Mode: 0o755}, {Idx: "20", Stem: "m", Behav: bBadMask, K: k, Mode: 0o755}, {Idx: "30", Stem: "c", Behav: bOK, Mode: 0o755}},
+			Confs:   []Conf{{File: fmt.Sprintf("20-m_badmask%d.conf", k), Content: "for the plugin with the unknown events\n"}},
+			Ops:     ops[:2], StopAfter: "0",
+		})
+	}
+	// the state handed out while launched plugins synchronize: just below and well above the
+	// 4 MiB message limit, with healthy and failing plugins, and an external one joining later
+	for _, v := range []struct{ ctrs int }{{19}, {40}, {60}} {
+		cases = append(cases, C18Case{
+			Plugins: []Plugin{{Idx: "10", Stem: "a", Behav: bOK, Mode: 0o755}, {Idx: "20", Stem: "s", Behav: bSyncFail, Mode: 0o755}, {Idx: "30", Stem: "c", Behav: bOK, Mode: 0o755}},
+			Ops:     ops[:2], SyncPods: 3, SyncCtrs: v.ctrs, SyncCtrKiB: 200, Listen: true,
+			Exts: []Ext{{Idx: "15", Name: "e0", Join: 1, Leave: 3}},
+		})
+	}
+	cases = append(cases, C18Case{
+		Plugins: []Plugin{{Idx: "10", Stem: "a", Behav: bOK, Mode: 0o755}}, Ops: ops[:1], SyncPods: 3, SyncCtrs: 40, SyncCtrKiB: 200, ReqTimeoutMs: 5000,
 	})
 	// failures at the Synchronize stage directly in front of a healthy plugin
 	mk := func(behavs ...string) []Plugin {
